@@ -21,6 +21,7 @@ from ..engine.loader import class_methods
 BP = "xonsh/parsers/base.py"
 BI = "xonsh/built_ins.py"
 SP = "xonsh/procs/specs.py"
+AL = "xonsh/aliases.py"
 PX = "xonsh/procs/proxies.py"
 
 SPLIT = {"split", "rsplit", "shlex.split", "re.split"}
@@ -84,6 +85,7 @@ def check(ctx):
     ctx.rule("R1", "every production of subproc_atom has an action that assigns the delivery mode on every path, and each source form has the documented (helper, mode) pair; the assembler applies exactly one wrapper per mode", floor=25)
     ctx.rule("R2", "values containing an @()/$() part are not globbed, expanded or split again on their way to the argument list", floor=2)
     ctx.rule("R3", "@$() output is split with the shell lexer only", floor=2)
+    ctx.rule("R5", "alias resolution only copies the user's arguments: no call other than a copy, the alias invocation or the recursion receives them; every list result carries them, behind the alias's own words", floor=10)
     ctx.rule("R4", "the argv hand-off in SubprocSpec only copies: the command list is written by the known resolvers and none of them (nor the stage constructors) splits, globs or expands an element", floor=8)
 
     g = grammar.load(ctx.repo, lalr=False)
@@ -258,6 +260,105 @@ def check(ctx):
     ok = not any(isinstance(c.func, ast.Attribute) and c.func.attr not in ("append",) for c in calls_in(ra) if isinstance(c.func, ast.Attribute)) and all(call_name(c) in ("isinstance", "len", "resolved_cmd.append") for c in calls_in(ra))
     ctx.ob("R4", f"{SP}:SubprocSpec.resolve_args_list", "weaving the argument lists only flattens (isinstance/len/append)", ok, key="resolve_args_list|shape")
 
+    # ------------------------------------------------------------------ R5
+    # the user's arguments cross alias resolution by copying only.  Tracked: `args = key[1:]` in
+    # Aliases.get, parameter `acc_args` in Aliases.eval_alias.  A tracked value may be copied
+    # (list(), +, [*a, *b], slices, .extend/.append onto a local list), handed to the alias being
+    # invoked, or passed on as the acc_args of the recursion; any other call that receives it
+    # (map(expand_path, ..), a comprehension calling a function on its elements ...) re-interprets
+    # what the user wrote.
+    al = ctx.repo.module(AL)
+    for q, seeds_ in (("Aliases.get", None), ("Aliases.eval_alias", {"acc_args"})):
+        fn = al.func(q)
+        site = f"{AL}:{q}"
+        tracked = set(seeds_ or ())
+        if seeds_ is None:
+            for n in walk_local(fn):
+                if isinstance(n, ast.Assign) and isinstance(n.value, ast.Subscript) and isinstance(n.value.slice, ast.Slice) and unparse(n.value.value) == "key" and const_value(n.value.slice.lower) == 1 and n.value.slice.upper is None:
+                    tracked |= {t.id for t in n.targets if isinstance(t, ast.Name)}
+            if not tracked:
+                raise AnchorMissing(f"{site}: `args = key[1:]` not found")
+        elif not any(a_.arg in tracked for a_ in fn.args.args):
+            raise AnchorMissing(f"{site}: parameter acc_args not found")
+
+        def mentions(e, names):
+            return any(isinstance(x, ast.Name) and x.id in names and isinstance(x.ctx, ast.Load) for x in ast.walk(e))
+
+        def copy_shape(e, names):
+            """e is built from tracked names by copying only"""
+            if isinstance(e, ast.Name):
+                return True
+            if isinstance(e, ast.Constant):
+                return True
+            if isinstance(e, ast.Call) and call_name(e) in ("list", "tuple") and len(e.args) <= 1 and not e.keywords:
+                return all(copy_shape(x, names) for x in e.args)
+            if isinstance(e, ast.BinOp) and isinstance(e.op, ast.Add):
+                return copy_shape(e.left, names) and copy_shape(e.right, names)
+            if isinstance(e, (ast.List, ast.Tuple)):
+                return all(copy_shape(x.value if isinstance(x, ast.Starred) else x, names) for x in e.elts)
+            if isinstance(e, ast.Subscript) and isinstance(e.slice, ast.Slice):
+                return copy_shape(e.value, names)
+            return not mentions(e, names)
+
+        # propagate through copying assignments and .extend/.append onto local lists
+        changed = True
+        while changed:
+            changed = False
+            for n in walk_local(fn):
+                if isinstance(n, ast.Assign) and mentions(n.value, tracked) and copy_shape(n.value, tracked):
+                    for t in n.targets:
+                        for x in ast.walk(t):
+                            if isinstance(x, ast.Name) and x.id not in tracked:
+                                tracked.add(x.id)
+                                changed = True
+                if isinstance(n, ast.Call) and isinstance(n.func, ast.Attribute) and n.func.attr in ("extend", "append") and isinstance(n.func.value, ast.Name) and any(mentions(a_, tracked) for a_ in n.args) and n.func.value.id not in tracked:
+                    tracked.add(n.func.value.id)
+                    changed = True
+        alias_vars = {"value", "val"}
+        n_flow = 0
+        for n in walk_local(fn):
+            if isinstance(n, ast.Call):
+                targs = [a_ for a_ in list(n.args) + [k.value for k in n.keywords] if mentions(a_, tracked)]
+                if not targs:
+                    continue
+                nm = call_name(n) or unparse(n.func)
+                n_flow += 1
+                if nm in ("list", "tuple", "len", "isinstance", "bool"):
+                    ok = True
+                elif isinstance(n.func, ast.Attribute) and n.func.attr in ("extend", "append") and isinstance(n.func.value, ast.Name):
+                    ok = all(copy_shape(a_, tracked) for a_ in n.args)
+                elif nm == "self.eval_alias":
+                    pos = n.args[2:3]
+                    kw = [k.value for k in n.keywords if k.arg == "acc_args"]
+                    ok = all(any(a_ is x for x in pos + kw) and copy_shape(a_, tracked) for a_ in targs)
+                elif isinstance(n.func, ast.Name) and n.func.id in alias_vars:
+                    ok = len(targs) == 1 and n.args and targs[0] is n.args[0] and isinstance(targs[0], ast.Name)
+                elif nm == "AliasReturnCommandResult":
+                    ok = True
+                else:
+                    ok = False
+                ctx.ob("R5", site, f"`{short(n, 70)}` only copies the user's arguments (or is the alias invocation / the recursion's acc_args)", ok, key=f"{q}|args-reinterpreted|{nm}", where=loc(n))
+            elif isinstance(n, (ast.ListComp, ast.GeneratorExp, ast.SetComp, ast.For)) :
+                it = n.generators[0].iter if not isinstance(n, ast.For) else n.iter
+                if mentions(it, tracked):
+                    n_flow += 1
+                    ctx.ob("R5", site, f"`{short(n, 60)}` does not process the user's arguments element by element", False, key=f"{q}|args-iterated", where=loc(n))
+            elif isinstance(n, ast.Assign) and mentions(n.value, tracked) and not isinstance(n.value, ast.Call):
+                n_flow += 1
+                ctx.ob("R5", site, f"`{short(n, 70)}` copies the user's arguments unchanged", copy_shape(n.value, tracked), key=f"{q}|args-assign-shape", where=loc(n))
+                # user arguments stay behind the alias's own words
+                v = n.value
+                if isinstance(v, ast.BinOp) and isinstance(v.op, ast.Add):
+                    ctx.ob("R5", site, f"`{short(v, 60)}`: the user's arguments follow the alias's own words", not (mentions(v.left, seeds_ or tracked) and not mentions(v.right, tracked)), key=f"{q}|args-order", where=loc(v))
+        # every list-valued return carries the arguments
+        for r in (x for x in walk_local(fn) if isinstance(x, ast.Return)):
+            if r.value is None or (isinstance(r.value, ast.Constant) and r.value.value is None) or unparse(r.value) == "default":
+                continue
+            n_flow += 1
+            ctx.ob("R5", site, f"`{short(r, 70)}` carries the user's arguments", mentions(r.value, tracked | {"result"}), key=f"{q}|args-dropped-at-return", where=loc(r))
+        if n_flow < 3:
+            raise AnalysisError(f"{site}: only {n_flow} flows of the user's arguments found")
+
 
 def _mode_on_path(fn, path):
     """The constant assigned to *._cliarg_action on this path: the assignment whose
@@ -296,7 +397,9 @@ META = {
     "the @() helper has an empty split/glob/expand effect summary, while the helper applied to glued arguments "
     "containing an injected part does not (known finding); @$() splits with the shell lexer only; SubprocSpec's "
     "command list is written only by the known resolvers and neither they nor the stage constructors apply a "
-    "splitting/globbing/expanding callee to it; alias and binary receive the same self.cmd. Literal values "
+    "splitting/globbing/expanding callee to it; alias and binary receive the same self.cmd; through Aliases.get/eval_alias the user's arguments flow by "
+    "copying only (list/+/display/slice/extend, the alias invocation, the recursion's acc_args), every list result "
+    "carries them, behind the alias's own words. Literal values "
     "themselves (tokenizer regexes, literal_eval) are not decided.",
     "note": "Decides the listed structural clauses, not the behaviour. The grammar is read by importing "
     "xonsh.parsers from the analysed tree in a helper subprocess (static initialisers only; nothing is parsed).",
